@@ -1051,8 +1051,14 @@ def b14(rep, w):
                 pl0 = op_place(a0[0]) if a0 else None
                 if pl0 is None:
                     return False
+                comp_fields = {fd['n'] for fd in w.yarel.adts.get('yarel::compiler::Compiler', {'variants': [{'fields': []}]})['variants'][0]['fields']}
+                parser_fields = {fd['n'] for fd in w.yarel.adts.get('yarel::compiler::Parser', {'variants': [{'fields': []}]})['variants'][0]['fields']}
                 for q0 in org.get(pl0['l'], ()):
                     if q0[0][0] == 'call' and q0[0][2].rsplit('::', 1)[-1] in ('compiler', 'compiler_mut'):
+                        return True
+                    named = [x for x in q0[1:] if not x.startswith(('@', '#', 'as ', 'in ')) and x not in ('*', '[]') and not x.isdigit()]
+                    # ... or reached as <the stack of Compiler records>.last().<field of Compiler>
+                    if named and named[-1] in comp_fields and named[-1] not in parser_fields:
                         return True
                 return False
             bad = sorted({(q[0][2].rsplit('::', 1)[-1] if q[0][0] == 'call' else str(q[0])) for q in roots
